@@ -15,6 +15,16 @@ Workloads
            open against a hand-driven peer that is silent, says "connection pending", or stops half-way
            through the configuration; later the peer stays quiet, carries on, or refuses; then the CID of the
            abandoned attempt must be free again and a new open must get it
+  rapid    histories on the 3-device rig whose operations follow each other WITHOUT quiescence (at once / after a few
+           loop turns): close / close by the peer / closes by both ends at once / a refused open / a classic set-up the
+           client abandons for a mode mismatch, each followed immediately by an open (either end, LE, enhanced, Basic,
+           ERTM), a close and an open issued together; every open succeeds, nothing pending, tables exact at every
+           quiescent point, one more open per link at the end gets the smallest free CID
+  stale    a prompt hand-driven acceptor that never reuses its own CIDs repeats responses that belong to nothing any
+           more (Disconnection Response of a closed channel whose local CID is free / reused by an open channel / reused
+           by a channel whose request is unanswered; a Disconnection Response with the CIDs of two different channels;
+           duplicate Connection / Configuration / LE / enhanced Connection Responses; responses and credits for CIDs that
+           never existed): held channels stay open and in the tables, the pending open completes with the right CID
 """
 from __future__ import annotations
 
@@ -31,20 +41,34 @@ RULE = ('seeded operation histories (3-30 ops) on a 3-device rig; non-trivial wh
         'distinct op sequence. cut cases: one per (operation, message index, cutting side), all indices of the '
         'dry run enumerated. wrap cases: seeded (transport, side, distance of the burst from identifier 255, burst '
         'composition); non-trivial when the identifier wrapped inside the burst (counted from the wire). giveup cases: '
-        'seeded (channel type, stage, cancel/time-out, late behaviour of the peer) x 1-3 rounds; non-trivial always')
+        'seeded (channel type, stage, cancel/time-out, late behaviour of the peer) x 1-3 rounds; non-trivial always. '
+        'rapid cases: seeded histories of 4-14 operations with seeded gaps (none / 1-10 loop turns / quiescence); non-trivial '
+        'always (>= 1 operation without quiescence before it); distinct = distinct history. stale cases: seeded (channel type, '
+        '2-5 rounds of opens, closes, moment, 1-3 injected responses); distinct = distinct history')
 ASSUMPTIONS = [
     'a table entry for a dead connection handle counts only if non-empty',
     'a refused open (no server on the PSM) must raise and leave the tables unchanged',
+    'a Disconnection Response whose CID pair is not that of a channel waiting for it, and any response repeated after '
+    'the request it answers was completed, changes nothing (the stale-response peer never uses one of its own CIDs twice, '
+    'so a stale CID pair never equals a live one)',
 ]
 MIN_EVENTS = {
     'quick': {'table_comparisons': 12000, 'ops': 4000, 'reopen_after_close': 1000, 'cut_points': 500, 'enhanced_refusals_attempted': 50, 'crossing_closes': 100,
               'wrap_cycles': 2500, 'wrap_bursts': 25, 'wrap_bursts_straddling_the_wrap': 15, 'wrap_links_with_256_commands': 25,
               'giveup_attempts': 250, 'giveup_stage_silent': 100, 'giveup_stage_pending': 40, 'giveup_stage_connected': 20,
-              'giveup_reopens': 120},
+              'giveup_reopens': 120,
+              'rapid_ops_without_quiescence': 1200, 'rapid_opens_without_quiescence': 600, 'rapid_close-both_then_open': 80,
+              'rapid_mismatch_then_open': 35, 'rapid_close_then_open': 30, 'rapid_checkpoints': 600,
+              'stale_injections': 700, 'stale_when_cid-reused-pending': 250, 'stale_when_cid-reused-open': 250,
+              'stale_pending_opens_completed': 150},
     'thorough': {'table_comparisons': 60000, 'ops': 30000, 'reopen_after_close': 2000, 'cut_points': 800, 'enhanced_refusals_attempted': 400, 'crossing_closes': 800,
                  'wrap_cycles': 40000, 'wrap_bursts': 500, 'wrap_bursts_straddling_the_wrap': 300, 'wrap_links_with_256_commands': 280,
                  'giveup_attempts': 2500, 'giveup_stage_silent': 1000, 'giveup_stage_pending': 400, 'giveup_stage_connected': 200,
-                 'giveup_reopens': 1200},
+                 'giveup_reopens': 1200,
+                 'rapid_ops_without_quiescence': 10000, 'rapid_opens_without_quiescence': 5000, 'rapid_close-both_then_open': 650,
+                 'rapid_mismatch_then_open': 280, 'rapid_close_then_open': 240, 'rapid_checkpoints': 5000,
+                 'stale_injections': 5500, 'stale_when_cid-reused-pending': 2000, 'stale_when_cid-reused-open': 2000,
+                 'stale_pending_opens_completed': 1200},
 }
 CASE_TIMEOUT = 300
 
@@ -64,6 +88,10 @@ def plan(tier, seed):
         cases.append({'kind': 'wrap', 'seed': seed * 1000003 + 60000 + i, 'transport': 'le' if i % 4 else 'bredr', 'tier': tier})
     for i in range(240 if tier == 'quick' else 2400):
         cases.append({'kind': 'giveup', 'seed': seed * 1000003 + 61000 + i, 'chan': ('br', 'br', 'le', 'enh')[i % 4]})
+    for i in range(300 if tier == 'quick' else 3000):
+        cases.append({'kind': 'rapid', 'seed': seed * 1000003 + 70000 + i, 'transport': 'bredr' if i % 2 else 'le'})
+    for i in range(200 if tier == 'quick' else 2000):
+        cases.append({'kind': 'stale', 'seed': seed * 1000003 + 75000 + i, 'chan': ('br', 'br', 'le', 'enh')[i % 4]})
     ops = ['le', 'enh2', 'le-close', 'le-close-peer', 'le-drain', 'le-drain1', 'le-drain1-close', 'br', 'br-close',
            'br-close-peer', 'ertm']
     for i, op in enumerate(ops):
@@ -911,6 +939,426 @@ async def giveup_case(case, r: R):
 
 
 # -----------------------------------------------------------------------------
+# operations issued back to back, WITHOUT waiting for quiescence in between
+# -----------------------------------------------------------------------------
+class _Mirror:
+    """The far end of a channel as the near end describes it (for the set model only)."""
+
+    def __init__(self, ch):
+        self.source_cid, self.destination_cid = ch.destination_cid, ch.source_cid
+
+
+async def rapid_case(case, r: R):
+    """A history on the 3-device rig in which the next operation is issued as soon as the awaited call of the
+    previous one has returned (or a few loop turns later) - close then open, closes by both ends at once then open,
+    a refused / abandoned set-up (no server; classic mode mismatch, which the client abandons with a Disconnection
+    Request) then a retry, a close and an open issued together - so that the tail of the previous operation
+    (responses to requests of a channel whose identifier is free again) is still in flight under the rig's delays.
+    Every open succeeds, nothing stays pending, and at every quiescent point the tables are exact."""
+    from bumble import l2cap
+    from vlib import rig as vrig
+    rng = random.Random(case['seed'])
+    vrig.seed_entropy(case['seed'])
+    tr = case['transport']
+    w = World(rng, r, tr, case['seed'], rng.choice([0, 1, 1, 3, 5]))
+    await w.start()
+    rg = w.rg
+    held = {'a': [], 'b': []}      # (near end, from_peer, kind) of the channels the application holds
+    loose = []                     # futures of the second closer of crossing closes
+    closed = []
+    prev = 'start'
+
+    def sync_model():
+        for nm in ('a', 'b'):
+            w.open[nm] = [((ch, _Mirror(ch), k) if not fp else (_Mirror(ch), ch, k)) for ch, fp, k in held[nm]]
+
+    def far_end(nm, ch, fp):
+        c0, cx, peer = w.links[nm]
+        dev, handle = (0, c0.handle) if fp else (peer, cx.handle)
+        for a in w.accepted[dev]:
+            if a.source_cid == ch.destination_cid and a.destination_cid == ch.source_cid and a.connection.handle == handle \
+                    and a.state.name in ('OPEN', 'CONNECTED'):
+                return a
+        return None
+
+    async def checkpoint(after):
+        try:
+            await rg.quiesce()
+            await asyncio.sleep(0.5)
+            await rg.quiesce()
+        except vloop.Hang:
+            r.bad(f'hang/no-quiescence/back-to-back/{tr}', f'history={w.history}')
+            return False
+        for f in loose:
+            if not f.done():
+                r.bad(f'hang/disconnect/back-to-back/crossing/{tr}', f'the second of two crossing disconnect() calls is pending at quiescence; history={w.history}')
+                return False
+            f.cancelled() or f.exception()
+        loose.clear()
+        sync_model()
+        n = len(r.violations)
+        w.compare_tables(after)
+        for ch in closed:
+            w.check_closed_states((ch,), after)
+        for nm in ('a', 'b'):
+            for ch, fp, k in held[nm]:
+                r.ev('oracle_evals')
+                if ch.state.name not in ('OPEN', 'CONNECTED'):
+                    r.bad(f'tables/state-of-held-channel/back-to-back/{tr}/{ch.state.name}', f'{ch} after {after}; history={w.history}')
+        r.ev('rapid_checkpoints')
+        return len(r.violations) == n
+
+    def spec_for(kind):
+        if kind == 'br-mismatch':
+            return l2cap.ClassicChannelSpec(psm=PSM_BR_ERTM)        # Basic towards the ERTM server
+        if kind == 'ertm-mismatch':
+            return l2cap.ClassicChannelSpec(psm=PSM_BR, mode=l2cap.TransmissionMode.ENHANCED_RETRANSMISSION)
+        return w.spec(kind)
+
+    async def do_open(nm, kind, fp, count=1):
+        c0, cx, peer = w.links[nm]
+        conn, dev = (cx, peer) if fp else (c0, 0)
+        if kind == 'enh':
+            return await vloop.vwait(rg.devices[dev].l2cap_channel_manager.create_enhanced_credit_based_channels(conn, w.spec('le'), count))
+        return [await vloop.vwait(conn.create_l2cap_channel(spec=spec_for(kind)))]
+
+    for step in range(rng.randint(4, 14)):
+        nm = rng.choice(['a', 'a', 'a', 'b'])
+        gap = 'start'
+        if step:
+            gap = rng.choice(['none', 'none', 'none', 'turns', 'turns', 'quiesce'])
+            if gap == 'turns':
+                for _ in range(rng.randint(1, 10)):
+                    await asyncio.sleep(0)
+            elif gap == 'quiesce':
+                if not await checkpoint(('gap', step)):
+                    return
+        fast = gap in ('none', 'turns')
+        ops = ['open', 'open', 'open-peer', 'refuse', 'mismatch'] if tr == 'bredr' else ['open', 'open', 'open-peer', 'enh', 'refuse']
+        if held[nm]:
+            ops += ['close', 'close-peer', 'close-both', 'close-both', 'close+open']
+        op = rng.choice(ops)
+        w.history.append((prev, gap, op, nm))
+        r.ev('ops')
+        r.ev('rapid_ops')
+        if fast:
+            r.ev('rapid_ops_without_quiescence')
+        try:
+            if op in ('open', 'open-peer', 'enh', 'close+open'):
+                kind = 'enh' if op == 'enh' else 'le' if tr == 'le' else rng.choice(['br', 'ertm'])
+                fp = op == 'open-peer' or (op != 'open' and rng.random() < 0.3)
+                victim = None
+                if op == 'close+open':
+                    # a close and an open issued together
+                    victim = held[nm].pop(rng.randrange(len(held[nm])))
+                    fp = victim[1]
+                    cl = asyncio.ensure_future(vloop.vwait(victim[0].disconnect()))
+                if fast and prev != 'start':
+                    r.ev('rapid_opens_without_quiescence')
+                    r.ev(f'rapid_{prev}_then_open')
+                    if prev in ('close', 'close-peer', 'close-both', 'close+open'):
+                        r.ev('reopen_after_close')
+                try:
+                    chans = await do_open(nm, kind, fp, rng.randint(1, 3))
+                except vloop.Hang:
+                    r.bad(f'hang/open/back-to-back/{prev}-then-{op}/{kind}', f'open pending at T_v; history={w.history}')
+                    return
+                except Exception as e:
+                    r.bad(f'tables/open-failed/back-to-back/{prev}-then-{op}/{kind}', f'{type(e).__name__}: {e}; history={w.history}')
+                    return
+                for ch in chans:
+                    held[nm].append((ch, fp, 'le' if kind == 'enh' else kind))
+                if victim is not None:
+                    try:
+                        await cl
+                    except vloop.Hang:
+                        r.bad(f'hang/disconnect/back-to-back/with-open/{tr}', f'disconnect() issued together with an open is pending at T_v; history={w.history}')
+                        return
+                    closed.append(victim[0])
+            elif op in ('close', 'close-peer', 'close-both'):
+                ch, fp, kind = held[nm].pop(rng.randrange(len(held[nm])))
+                far = far_end(nm, ch, fp) if op != 'close' else None
+                if op != 'close' and far is None:
+                    op = 'close'
+                try:
+                    if op == 'close':
+                        await vloop.vwait(ch.disconnect())
+                    elif op == 'close-peer':
+                        await vloop.vwait(far.disconnect())
+                    else:
+                        r.ev('crossing_closes')
+                        loose.append(asyncio.ensure_future(far.disconnect()))
+                        try:
+                            await vloop.vwait(ch.disconnect())
+                        except vloop.Hang:
+                            raise
+                        except Exception:
+                            r.ev('crossing_close_first_raised')
+                except vloop.Hang:
+                    r.bad(f'hang/disconnect/back-to-back/{op}/{kind}', f'disconnect() pending at T_v; history={w.history}')
+                    return
+                closed.append(ch)
+            elif op in ('refuse', 'mismatch'):
+                kind = ('le-none' if tr == 'le' else 'br-none') if op == 'refuse' else rng.choice(['br-mismatch', 'br-mismatch', 'ertm-mismatch'])
+                try:
+                    await do_open(nm, kind, rng.random() < 0.3)
+                    r.bad(f'tables/refuse/not-refused/back-to-back/{kind}', f'history={w.history}')
+                    return
+                except vloop.Hang:
+                    r.bad(f'hang/open-refused/back-to-back/{prev}-then-{kind}', f'refused open pending at T_v; history={w.history}')
+                    return
+                except Exception:
+                    r.ev('refusals')
+                    r.ev(f'rapid_refused_{kind}')
+        except vloop.Hang as e:
+            r.bad(f'hang/op/back-to-back/{op}', f'{e}; history={w.history}')
+            return
+        prev = op
+    if not await checkpoint('end'):
+        return
+    # at the end every identifier that was closed is usable: one more open per link gets the smallest free CID
+    for nm in ('a', 'b'):
+        c0 = w.links[nm][0]
+        used = {ch.source_cid for ch, fp, k in held[nm] if not fp} | {ch.destination_cid for ch, fp, k in held[nm] if fp}
+        want = next(c for c in range(0x40, 0x200) if c not in used)
+        kind = 'le' if tr == 'le' else 'br'
+        try:
+            ch = (await do_open(nm, kind, False))[0]
+        except vloop.Hang:
+            r.bad(f'hang/open/after-back-to-back/{kind}', f'history={w.history}')
+            return
+        except Exception as e:
+            r.bad(f'tables/open-failed/after-back-to-back/{kind}', f'{type(e).__name__}: {e}; history={w.history}')
+            return
+        r.ev('oracle_evals')
+        r.ev('rapid_final_reopens')
+        if ch.source_cid != want:
+            r.bad(f'tables/cid-not-reused/after-back-to-back/{tr}', f'smallest free CID {want:#x}, the new channel got {ch.source_cid:#x}; history={w.history}')
+        held[nm].append((ch, False, kind))
+    await checkpoint('final-reopen')
+    for where, e in rg.exceptions:
+        r.bad(f'tables/exception-in-stack/{tr}/back-to-back', f'{where}: {e}; history={w.history}')
+    r.sig('rapid', tr, tuple(w.history))
+    r.sched.add(rg.schedule_signature)
+    r.evals()
+    r.sample = {'kind': 'rapid', 'transport': tr, 'history': w.history}
+
+
+# -----------------------------------------------------------------------------
+# stale / duplicate responses from a hand-driven peer: all of them must be ignored
+# -----------------------------------------------------------------------------
+async def stale_case(case, r: R):
+    """bumble opens and closes channels against a prompt hand-driven acceptor that never uses one of its own CIDs
+    twice. The peer then repeats responses that no longer belong to anything - the Disconnection Response of a
+    channel that is closed (its local CID free, or in use again by a NEW channel that is open or whose Connection
+    Request is still unanswered), a Disconnection Response whose two CIDs belong to two different channels, a second
+    Connection / Configuration / credit-based Connection Response for a request that was already answered, responses
+    for CIDs that never existed. Nothing may change: the channels the application holds stay open and in the tables,
+    the pending open completes once the peer answers it, its CID is the smallest free one."""
+    import struct
+    from bumble import l2cap
+    from vlib import rig as vrig
+    from vlib import ref_l2cap as rl
+    rng = random.Random(case['seed'])
+    vrig.seed_entropy(case['seed'])
+    kind = case['chan']
+    tr = 'bredr' if kind == 'br' else 'le'
+    rg = vrig.Rig(2, seed=case['seed'], max_delay=rng.choice([0, 0, 1, 3]), classic=tr == 'bredr')
+    await rg.power_on()
+    if tr == 'bredr':
+        c0, c1 = await rg.connect_classic(0, 1)
+    else:
+        c0, c1 = await rg.connect_le(0, 1)
+    await rg.quiesce()
+    raw = vrig.RawPeer(rg, 1)
+    raw.take()
+    acc = SlowAcceptor(raw, c1.handle, rng)
+    sigcid = 1 if tr == 'bredr' else 5
+    mgr = rg.devices[0].l2cap_channel_manager
+    held, gone, hist = [], [], []
+    answered = []       # (code, ident, data) of responses the peer has sent: material for duplicates
+    orig_send = acc.send
+
+    def send(cid, code, ident, data, what):
+        answered.append((code, ident, data))
+        orig_send(cid, code, ident, data, what)
+    acc.send = send
+
+    def create():
+        if kind == 'br':
+            return c0.create_l2cap_channel(spec=l2cap.ClassicChannelSpec(psm=PSM_BR))
+        if kind == 'enh':
+            return mgr.create_enhanced_credit_based_channels(c0, l2cap.LeCreditBasedChannelSpec(psm=PSM_LE, max_credits=8), 1)
+        return c0.create_l2cap_channel(spec=l2cap.LeCreditBasedChannelSpec(psm=PSM_LE, max_credits=8))
+
+    def verdict(after):
+        own = sorted(mgr.channels.get(c0.handle, {}).keys())
+        want = sorted(ch.source_cid for ch in held)
+        r.ev('table_comparisons')
+        r.ev('oracle_evals', 2)
+        ok = True
+        if own != want:
+            r.bad(f'tables/channels/{"stale" if set(own) - set(want) else "missing"}/after-stale-response/{kind}/{after}',
+                  f'channels={[hex(c) for c in own]}, the application holds {[hex(c) for c in want]}; history={hist}; peer trace={acc.trace[-6:]}')
+            ok = False
+        if tr == 'le':
+            pc = sorted(mgr.le_coc_channels.get(c0.handle, {}).keys())
+            wpc = sorted(ch.destination_cid for ch in held)
+            if pc != wpc:
+                r.bad(f'tables/le_coc_channels/{"stale" if set(pc) - set(wpc) else "missing"}/after-stale-response/{kind}/{after}',
+                      f'le_coc_channels={pc}, expected {wpc}; history={hist}')
+                ok = False
+        for ch in held:
+            if ch.state.name not in ('OPEN', 'CONNECTED'):
+                r.bad(f'tables/state-of-held-channel/after-stale-response/{kind}/{after}/{ch.state.name}', f'{ch}; history={hist}')
+                ok = False
+        for where, e in rg.exceptions:
+            r.bad(f'tables/exception-in-stack/after-stale-response/{kind}/{after}', f'{where}: {e}; history={hist}')
+            ok = False
+        return ok
+
+    async def open_one(why, stall=None):
+        used = {ch.source_cid for ch in held}
+        want = next(c for c in range(0x40, 0x100) if c not in used)
+        acc.arm(stall)
+        task = asyncio.ensure_future(create())
+        if stall:
+            for _ in range(50):
+                await rg.quiesce()
+                if acc.reached:
+                    break
+            if not acc.reached:
+                raise RuntimeError(f'stage {stall} not reached; trace={acc.trace}')
+        return task, want
+
+    async def finish_open(task, want, why):
+        try:
+            res = await vloop.vwait(task)
+        except vloop.Hang:
+            r.bad(f'hang/open/{why}/{kind}', f'open pending at T_v although the peer answered it; history={hist}; peer trace={acc.trace[-8:]}')
+            return None
+        except Exception as e:
+            r.bad(f'tables/open-failed/{why}/{kind}', f'{type(e).__name__}: {e}; history={hist}; peer trace={acc.trace[-8:]}')
+            return None
+        ch = res[0] if isinstance(res, list) else res
+        await rg.quiesce()
+        r.ev('oracle_evals')
+        if ch.source_cid != want:
+            r.bad(f'tables/cid-not-reused/{why}/{kind}', f'smallest free CID {want:#x}, got {ch.source_cid:#x}; history={hist}')
+        held.append(ch)
+        return ch
+
+    def inject(what, ch_old=None):
+        """Returns False when there is no material for this injection."""
+        S = struct.pack
+        nid = rng.choice([1, 0x33, 0xEE])
+        if what == 'dup-disc-rsp':
+            if not gone:
+                return False
+            scid, dcid, ident = rng.choice(gone)
+            orig_send(sigcid, rl.CODE_DISC_RSP, rng.choice([ident, nid]), S('<HH', dcid, scid), 'stale DiscRsp')
+        elif what == 'crossed-disc-rsp':
+            # the peer's CID of one channel with bumble's CID of another (a closed one or a live one)
+            if not held or not (gone or len(held) > 1):
+                return False
+            a = rng.choice(held)
+            others = [d for s_, d, _i in gone] + [c.destination_cid for c in held if c is not a]
+            orig_send(sigcid, rl.CODE_DISC_RSP, nid, S('<HH', rng.choice(others), a.source_cid), 'crossed DiscRsp')
+        elif what == 'unknown-disc-rsp':
+            orig_send(sigcid, rl.CODE_DISC_RSP, nid, S('<HH', 0x70 + rng.randrange(8), 0x90 + rng.randrange(8)), 'DiscRsp(unknown)')
+        elif what == 'dup-open-rsp':
+            # a response (Connection / Configuration / LE / enhanced Connection Response) sent before, once more
+            cands = [x for x in answered if x[0] in (rl.CODE_CONN_RSP, rl.CODE_CONF_RSP, rl.CODE_LE_COC_RSP, rl.CODE_ECOC_RSP)]
+            if not cands:
+                return False
+            code, ident, data = rng.choice(cands)
+            if code == rl.CODE_CONN_RSP and struct.unpack_from('<H', data, 2)[0] not in {c.source_cid for c in held if c.destination_cid == struct.unpack_from('<H', data, 0)[0]}:
+                return False        # (only for a channel that is open NOW with this very CID pair: anything else would be a new answer)
+            orig_send(sigcid, code, ident, data, 'duplicate response')
+        elif what == 'unknown-open-rsp':
+            if tr == 'bredr':
+                code = rng.choice([rl.CODE_CONN_RSP, rl.CODE_CONF_RSP])
+                data = S('<HHHH', 0x77, 0x99, 0, 0) if code == rl.CODE_CONN_RSP else S('<HHH', 0x99, 0, 0)
+            else:
+                code = rng.choice([rl.CODE_LE_COC_RSP, rl.CODE_ECOC_RSP, rl.CODE_LE_CREDIT])
+                data = {rl.CODE_LE_COC_RSP: S('<HHHHH', 0x77, 512, 64, 5, 0), rl.CODE_ECOC_RSP: S('<HHHH', 512, 64, 5, 0) + S('<H', 0x77),
+                        rl.CODE_LE_CREDIT: S('<HH', 0x77, 3)}[code]
+            orig_send(sigcid, code, rng.choice([0xC1, 0xC2]), data, 'response for nothing')
+        return True
+
+    KINDS = ['dup-disc-rsp', 'dup-disc-rsp', 'crossed-disc-rsp', 'crossed-disc-rsp', 'unknown-disc-rsp', 'dup-open-rsp', 'unknown-open-rsp']
+    for rnd in range(rng.randint(2, 5)):
+        # some channels, one or two of them closed again (by bumble; the raw peer confirms)
+        for _ in range(rng.randint(1, 3)):
+            task, want = await open_one('stale-harness')
+            if await finish_open(task, want, 'before-stale-response') is None:
+                return
+        for _ in range(rng.randint(1, 2)):
+            if not held:
+                break
+            ch = held.pop(rng.randrange(len(held)))
+            n_before = len(answered)
+            try:
+                await vloop.vwait(ch.disconnect())
+            except vloop.Hang:
+                r.bad(f'hang/disconnect/stale-harness/{kind}', f'disconnect() pending at T_v; history={hist}')
+                return
+            await rg.quiesce()
+            rsp = [x for x in answered[n_before:] if x[0] == rl.CODE_DISC_RSP]
+            gone.append((ch.source_cid, ch.destination_cid, rsp[0][1] if rsp else 1))
+        if not verdict('harness'):
+            return
+        when = rng.choice(['cid-free', 'cid-reused-open', 'cid-reused-open', 'cid-reused-pending', 'cid-reused-pending'])
+        what = rng.choice(KINDS)
+        task = None
+        if when == 'cid-reused-open':
+            task, want = await open_one('stale-harness')
+            if await finish_open(task, want, 'before-stale-response') is None:
+                return
+            task = None
+        elif when == 'cid-reused-pending':
+            task, want = await open_one('stale-harness', stall='silent')
+        n_inj = 0
+        done_ = set()
+        for _ in range(rng.randint(1, 3)):
+            if inject(what):
+                n_inj += 1
+                done_.add(what)
+            what = rng.choice(KINDS) if rng.random() < 0.4 else what
+        what = '+'.join(sorted(done_)) or 'nothing'
+        hist.append((when, what, n_inj))
+        await rg.quiesce()
+        await asyncio.sleep(0.2)
+        await rg.quiesce()
+        r.ev('stale_injections', n_inj)
+        r.ev(f'stale_when_{when}', n_inj)
+        if task is not None:
+            r.ev('oracle_evals')
+            if task.done():
+                exc = None if task.cancelled() else task.exception()
+                r.bad(f'tables/pending-open-ended-by-stale-response/{kind}/{what}', f'the open whose request the peer has not answered ended '
+                                                                                  f'({exc!r}); history={hist}; peer trace={acc.trace[-6:]}')
+                return
+            # bumble holds the pending channel in its table: the model has to as well
+            pend_cids = sorted(set(mgr.channels.get(c0.handle, {}).keys()) - {c.source_cid for c in held})
+            if pend_cids != [want]:
+                r.bad(f'tables/channels/pending-open-lost/after-stale-response/{kind}/{what}',
+                      f'pending channel CIDs {pend_cids}, expected [{want:#x}]; history={hist}')
+                return
+            acc.carry_on()
+            if await finish_open(task, want, f'after-stale-response/{what}') is None:
+                return
+            r.ev('stale_pending_opens_completed')
+        if not verdict(what):
+            return
+        r.ev('stale_rounds')
+    r.sig('stale', kind, tuple(hist))
+    r.sched.add(rg.schedule_signature)
+    r.evals()
+    r.sample = {'kind': 'stale', 'channel': kind, 'history': [list(h) for h in hist], 'peer_trace': acc.trace[-30:]}
+
+
+# -----------------------------------------------------------------------------
 async def cut_scenario(case, r: R, cut_at, dry):
     """Runs: setup, (prepare), operation with a link drop at HCI message index cut_at.
     Returns number of HCI messages the operation took (dry run)."""
@@ -1026,6 +1474,10 @@ def run_case(case, r: R):
         return wrap_case(case, r)
     if case['kind'] == 'giveup':
         return giveup_case(case, r)
+    if case['kind'] == 'rapid':
+        return rapid_case(case, r)
+    if case['kind'] == 'stale':
+        return stale_case(case, r)
     # cut: dry run, then one fresh loop per cut index
     dry_r = R({})
     n, _ = vloop.run(cut_scenario(case, dry_r, None, True))
@@ -1046,6 +1498,8 @@ LEVEL_TEXT = ('Set model of open channels compared with the ChannelManager table
               'plus links that carry more than 256 signalling commands with simultaneous requests across the identifier '
               'wrap-around, plus opens abandoned by their caller (cancel / time-out) at every stage against a slow, '
               '"pending" or half-configuring hand-driven peer, followed by a reopen that must get the same CID; '
+              'plus ~300 / ~3000 histories whose operations are issued back to back without quiescence and ~200 / ~2000 '
+              'histories against a hand-driven peer that repeats stale / duplicate / crossed responses; '
               'every awaited call bounded by 300 virtual seconds. Exploration of histories, enumeration of cut points '
               'of the sampled operations; not a proof.')
 LEVEL_NOTE = ('Trusted: the set model in checks/c09.py, rig taps/delay pipes, virtual-time loop. Channel identity is '
